@@ -19,10 +19,10 @@ TECHNIQUE = ("Coq proofs over a function-by-function model of gmtls/conn.go's re
              "specifications of SM4, HMAC-SM3 and GCM for which the premises are proved; the extracted model is run against the "
              "real code on single-record mutants, stateful pairs and handshake-phase reads (white box), on attacker scripts, "
              "close sequences and captured connections (black box, incl. key-block derivation from the logged master secret)")
-LEVEL_TEXT = ("Theorems in Coq (Props/C07.v, 33): extractPadding's constant-time arithmetic equals the RFC padding rule for every payload; "
+LEVEL_TEXT = ("Theorems in Coq (Props/C07.v, 35): extractPadding's constant-time arithmetic equals the RFC padding rule for every payload; "
               "incSeq is +1 on a 64-bit big-endian counter and panics exactly at 2^64-1; the sequence number is reset only by a requested "
               "ChangeCipherSpec arriving with no handshake bytes pending; nonce/AAD/MAC-input/record layouts; fresh explicit IVs from the "
-              "randomness stream; the GCM explicit nonce is the sequence number, so over any history of Writes the nonces never repeat; decrypt(encrypt(r)) = r; for every byte stream an attacker can present (every script over deliver / flip / "
+              "randomness stream; the GCM explicit nonce is the sequence number, so over any history of Writes the nonces never repeat; over any history of Writes of a CBC sender the explicit IVs on the wire are, in order, exactly the consecutive blocks consumed from config.rand() (record j carries block j, nothing reused), hence pairwise distinct whenever the blocks of the entropy source are; decrypt(encrypt(r)) = r; for every byte stream an attacker can present (every script over deliver / flip / "
               "truncate / extend / swap / duplicate / drop / inject / cross-direction and cross-connection replay / header rewrite) the "
               "receiver delivers a prefix of what the sender wrote, its first error is permanent, its sequence number equals the number of "
               "accepted records - relative to the stated idealisation only; Write always succeeds (given randomness) and the writes arrive "
@@ -74,7 +74,11 @@ RULE = ("white box (seeded): per suite, payload lengths 0..43 (cbc) / 0..99 (gcm
         "the extracted Coq development derives the key block from the logged master secret and the hello randoms (PRF over HMAC-SM3, "
         "Agree/KeyModel.v) and opens every record captured after ChangeCipherSpec in both directions (Finished under sequence number 0, then "
         "the application data): the decoded bytes must equal what the endpoints wrote and read, and the verify_data of both decrypted Finished "
-        "messages must equal PRF(master secret, finished label, SM3(handshake messages captured in the clear)). close cases (C): 24 runs of writes, "
+        "messages must equal PRF(master secret, finished label, SM3(handshake messages captured in the clear)). long histories (round 6): 8 / 48 further S cases with 40..75 protected records in one direction of one "
+        "connection (many small Writes, both suites, both directions; all genuine, or one deviation behind the 17th record) and 2 / 8 "
+        "further captures with 20..45 protected records in each direction: the explicit IVs (CBC) of the WHOLE history must be pairwise "
+        "distinct, the explicit nonces (GCM) the consecutive sequence numbers - state the sender keeps across records and calls (IV "
+        "pools, reused buffers). close cases (C): 24 runs of writes, "
         "close_notify, all bytes buffered at once, Read buffers smaller than the last record. "
         "A case is non-trivial unless it is an empty-input helper call; distinct = distinct case text")
 
@@ -126,6 +130,16 @@ def _pad_ok(p):
         return False
     l = p[-1]
     return l < len(p) and all(b == l for b in p[len(p) - 1 - l:])
+
+
+def _first_repeat(ivs):
+    """which records of the history carry the same explicit IV (first pair), for the violation text"""
+    seen = {}
+    for j, v in enumerate(ivs):
+        if v in seen:
+            return " (record %d of this direction's history carries the explicit IV of record %d: %s)" % (j, seen[v], v)
+        seen[v] = j
+    return ""
 
 
 def _pred_S(f, io):
@@ -202,7 +216,7 @@ def _pred_S(f, io):
     else:
         ivs = [h[10:42] for h in heads]
         if len(set(ivs)) != len(ivs):
-            return False, "CBC explicit IV repeated"
+            return False, "CBC explicit IV repeated" + _first_repeat(ivs)
         for j in range(1, len(ivs)):
             if ivs[j] == tails[j - 1]:
                 return False, "CBC explicit IV equals the previous ciphertext block"
@@ -254,7 +268,7 @@ def predicate(f, io):
             else:
                 ivs = [r[10:42] for r in recs]
                 if len(set(ivs)) != len(ivs):
-                    return False, "capture: CBC explicit IV repeated"
+                    return False, "capture: CBC explicit IV repeated" + _first_repeat(ivs)
                 for j in range(1, len(recs)):
                     if ivs[j] == recs[j - 1][-32:]:
                         return False, "capture: CBC explicit IV equals the previous ciphertext block"
